@@ -5,6 +5,8 @@ import (
 	"bytes"
 	"context"
 	"fmt"
+	"os"
+	"path/filepath"
 	"runtime"
 	"strings"
 	"sync"
@@ -119,6 +121,13 @@ func TestHistoryIndependence(t *testing.T) {
 			flags |= slog.Lcaller
 		}
 		slog.SetFlags(flags)
+		// optionally the probe's source file lies under two known-path mappings (as it does for
+		// every user whose project is below the home directory)
+		twoMappings := p.Caller && rapid.Bool().Draw(t, "twoPathMappings")
+		if twoMappings {
+			cwd, _ := os.Getwd()
+			slog.AddKnownPathMapping(filepath.Dir(cwd), "~up")
+		}
 
 		log := vlib.NewEventLog()
 		pw := vlib.NewRec(log, 1, 0)
@@ -221,7 +230,11 @@ func TestHistoryIndependence(t *testing.T) {
 			a, b []byte
 		}{{"first emission vs. after history 1", b0, b1}, {"after history 1 vs. after history 2", b1, b2}, {"after history 2 vs. immediately repeated", b2, b3}} {
 			if !bytes.Equal(pair.a, pair.b) {
-				vlib.Discrep(t, "C09/history-dependent", "C09 %s: bytes differ (%s):\n  %q\n  %q\nhistory 1: %s\nhistory 2: %s", desc, pair.name, pair.a, pair.b, last(h1), last(h2))
+				sig := "C09/history-dependent"
+				if twoMappings {
+					sig = "C09/caller-file-depends-on-map-order"
+				}
+				vlib.Discrep(t, sig, "C09 %s: bytes differ (%s):\n  %q\n  %q\nhistory 1: %s\nhistory 2: %s", desc, pair.name, pair.a, pair.b, last(h1), last(h2))
 			}
 		}
 
@@ -246,6 +259,9 @@ func TestHistoryIndependence(t *testing.T) {
 		}
 		if g1 > 1 {
 			nt["concurrent-history"] = true
+		}
+		if twoMappings {
+			nt["file-under-two-path-mappings"] = true
 		}
 		key := ""
 		if nt["history-has-longer-record"] || nt["history-has-other-format"] || nt["history-has-other-colour"] {
